@@ -50,7 +50,7 @@ def run_spec(max_calls, simulate=None, seed=None, steps=STEPS, scalar_vars=SCALA
     q = lambda s: '"' + s + '"'
     st = lambda xs: "{" + ", ".join(q(x) for x in xs) + "}"
     defs = {"Steps": "{" + ",".join(map(str, steps)) + "}", "InScalars": st(IN_SCALARS), "InOthers": st(IN_OTHERS),
-            "TemporalKeys": '{{"it"}, {"t"}, {"it", "t"}}', "ScalarVars": st(scalar_vars), "TensorVars": st(TENSOR_VARS),
+            "TemporalKeys": '{{"it"}, {"t"}, {"it", "t"}, {"iteration"}, {"it", "time"}}', "ScalarVars": st(scalar_vars), "TensorVars": st(TENSOR_VARS),
             "Estimates": st(ESTIMATES)}
     name, text, cl = wrapper("OverTime", defs)
     cfg = f"""SPECIFICATION Spec
@@ -103,12 +103,15 @@ def fresh_value(step, v, rel_kwargs):
     return _FRESH[key]
 
 
+TKEY_ORDER = ["it", "iteration", "t", "time"]        # the driver sorts by the LAST of these that is present
+TKEY_SCALE = {"it": 1, "iteration": 1, "t": 0.5, "time": 0.5}
+
+
 def make_table(order, tkeys):
     t = {}
-    if "it" in tkeys:
-        t["it"] = [int(s) for s in order]
-    if "t" in tkeys:
-        t["t"] = [0.5 * s for s in order]
+    for k in TKEY_ORDER:
+        if k in tkeys:
+            t[k] = [int(s) if TKEY_SCALE[k] == 1 else TKEY_SCALE[k] * s for s in order]
     for c in IN_SCALARS + IN_OTHERS:
         t[c] = [step_inputs(s)[c].copy() for s in order]
     return t
@@ -159,8 +162,8 @@ def check_behaviour(job):
     del _evicted_inputs[:]
     tkeys = list(st["tkeys"])
     data = make_table(list(st["init_order"]), tkeys)
-    tkey = "t" if "t" in tkeys else "it"
-    scale_t = 0.5 if tkey == "t" else 1
+    tkey = [k for k in TKEY_ORDER if k in tkeys][-1]
+    scale_t = TKEY_SCALE[tkey]
     txt = []
     for n, h in enumerate(st["hist"], start=1):
         if h["op"] == "shuffle":
@@ -245,10 +248,11 @@ def check_behaviour(job):
                 findings.append(("C14", {"clause": clause, "column_kind": c["kind"], "column": name if c["kind"] != "est" else c["e"]},
                                  f"{where}: cell ({name}, step {s}) {detail}", {"state": st, "rel_kwargs": rel_kwargs, "column": name, "step": s}))
                 break
-    if "it" in tkeys and "t" in tkeys:
-        if [float(x) for x in data["t"]] != [0.5 * int(i) for i in data["it"]]:
+    if len(tkeys) == 2:
+        a, b = [k for k in TKEY_ORDER if k in tkeys]
+        if [float(x) / TKEY_SCALE[a] for x in data[a]] != [float(x) / TKEY_SCALE[b] for x in data[b]]:
             findings.append(("C14", {"clause": "InputsPreserved", "column_kind": "temporal"},
-                             f"{where}: 'it' and 't' columns were not permuted together: {list(data['it'])} / {list(data['t'])}", {"state": st}))
+                             f"{where}: the two temporal columns were not permuted together: {list(data[a])} / {list(data[b])}", {"state": st}))
     return findings
 
 
